@@ -92,7 +92,62 @@ def parsePCase (line : String) : Option PCase := do
   let ops ← ops.mapM parsePOp
   pure { init := initState eng role ret, ops }
 
+def showCalls (cs : List WCall) : String :=
+  if cs.isEmpty then "-" else ",".intercalate (cs.map fun c => match c with
+    | .pushFailed => "Sf" | .pushOk => "Sk" | .append p => s!"A{p}")
+
+def parseCalls (s : String) : Option (List WCall) :=
+  if s == "-" then some [] else
+  (s.splitOn ",").mapM fun t =>
+    if t == "Sf" then some .pushFailed else if t == "Sk" then some .pushOk
+    else if t.startsWith "A" then (t.drop 1).toString.toNat?.map .append else none
+
+structure WCase where
+  init : WState
+  dts : List Nat
+
+def parseWCase (line : String) : Option WCase := do
+  let (head, ops) ← match line.splitOn "|" with
+    | [h, o] => some (h, (o.splitOn ";").filter (· ≠ ""))
+    | _ => none
+  let fs := fields head
+  let snap ← (lookup fs "snap").bind po
+  let dts ← ops.mapM (fun o => if o.startsWith "h" then (o.drop 1).toString.toNat? else none)
+  pure { init := { first := ← natField fs "first", last := ← natField fs "last", snap, base := ← natField fs "base",
+                   cap := ← natField fs "cap", now := 0, next := ← natField fs "next",
+                   failsLeft := ← natField fs "fail", failCount := 0, retryAt := none, inProgress := false }, dts }
+
+def isWorker (line : String) : Bool := line.startsWith "k=worker"
+
+def wModelLine (line : String) : String :=
+  match parseWCase line with
+  | none => "bad-case\t-"
+  | some wc =>
+      let outs := wRun wc.init wc.dts
+      let tags := (outs.map fun (cs, _) =>
+        if cs.contains .pushFailed then "w-push-failed" else if cs.contains .pushOk then "w-push-ok"
+        else if cs.isEmpty then "w-nothing" else "w-append").eraseDups
+      ";".intercalate (outs.map fun (cs, n) => s!"{showCalls cs}.{n}") ++ "\t" ++ ",".intercalate tags
+
+def wMonitorLine (case out : String) : String :=
+  match parseWCase case with
+  | none => "bad-case"
+  | some wc =>
+      if out == "panic" then "bad panic" else
+      let obs := ((out.splitOn ";").filter (· ≠ "")).mapM fun o =>
+        match o.splitOn "." with
+        | [c, n] => do some (← parseCalls c, ← n.toNat?)
+        | _ => none
+      match obs with
+      | none => "bad-line"
+      | some os =>
+          let s := wc.init
+          match wMon s.first s.last s.snap s.base s.cap 0 s.next 0 none wc.dts os with
+          | none => "ok"
+          | some sig => "bad " ++ sig
+
 def modelLine (line : String) : String :=
+  if isWorker line then wModelLine line else
   match parsePCase line with
   | none => "bad-case\t-"
   | some pc =>
@@ -103,6 +158,7 @@ def monitorLine (prop : String) (line : String) : String :=
   if prop != "C33" then "skip" else
   match line.splitOn "\t" with
   | [case, out] =>
+      if isWorker case then wMonitorLine case out else
       match parsePCase case with
       | none => "bad-case"
       | some pc =>
